@@ -15,7 +15,9 @@ def hook_cmd(tok, r):
     if r[0] == "nostart":
         return 'echo %s >> "$TRACE"; echo {{.UndefinedVariable}}' % tok
     # hooks and conditions SAY something on both streams: what a command prints must not change how its exit status is read
-    return 'echo %s >> "$TRACE"; echo "%s speaking"; echo "%s complaining" >&2; exit %d' % (tok, tok, tok, r[1])
+    # (also through an EXTERNAL program and in colour: the output decorators see it as a raw Write of bytes with escape sequences)
+    return ('echo %s >> "$TRACE"; echo "%s speaking"; /usr/bin/printf \'\\033[32m%s in colour\\033[0m\\n\'; echo "%s complaining" >&2; exit %d'
+            % (tok, tok, tok, tok, r[1]))
 
 
 def job_cmd(c, per_var):
@@ -24,7 +26,7 @@ def job_cmd(c, per_var):
         return 'echo "c${V:-0}.%d" >> "$TRACE"; echo {{.UndefinedVariable}}' % c
     arms = []
     for v, (r, out) in enumerate(per_var):
-        arms.append("%d) %sexit %d;;" % (v, sh_printf(out), r[1]))
+        arms.append("%d) %s%sexit %d;;" % (v, sh_printf(out), "/usr/bin/printf '\\033[31mred\\033[0m\\n'; " if (c + v) % 3 == 0 and not out else "", r[1]))
     return 'echo "c${V:-0}.%d" >> "$TRACE"; case "${V:-0}" in %s esac' % (c, " ".join(arms))
 
 
@@ -40,6 +42,8 @@ def to_trtask(a, name="t"):
         t["variations"] = None
     else:
         t["variations"] = [{"V": str(v)} for v in range(nv)]
+        if a.get("emptyvar"):          # a declared EMPTY variation: one more pass over the commands, with no additional variable (V unset reads as 0)
+            t["variations"][0] = {}
     return t
 
 
@@ -100,7 +104,7 @@ def rand_abstract(rng, ncmds, nvars, novar=False, codes=(1, 2, 126, 127, 128, 20
         cond = ("nostart",)
     before = [res(0.25) for _ in range(rng.choice([0, 0, 1, 2]))]
     after = [res(0.3) for _ in range(rng.choice([0, 0, 1, 2]))]
-    return {"cond": cond, "before": before, "jobs": jobs, "after": after, "allow": rng.random() < 0.5, "novar": novar}
+    return {"cond": cond, "before": before, "jobs": jobs, "after": after, "allow": rng.random() < 0.5, "novar": novar, "emptyvar": (not novar) and rng.random() < 0.3}
 
 
 def to_config_task(a):
